@@ -240,6 +240,24 @@ def rules(chk, db, prefix='', only=None):
                        % (methods[0]['rect'], roles.pos, init0, roles.limit, roles.delegate, ctor_ok, sorted(missing) or 'none'),
                        function=rec)
         done_patterns.add((r['file'], r['loc']['l']))
+        # the budget arithmetic is unsigned: a conversion of the position / limit (or of limit - pos) to a SIGNED type turns a
+        # remaining budget of 2^63 bytes or more into a negative number and refuses requests that fit
+        key_u = (r['file'], r['loc']['l'], 'unsigned')
+        if key_u not in done_patterns:
+            done_patterns.add(key_u)
+            bad_casts = []
+            for m in methods:
+                if 'body' not in m:
+                    continue
+                for y in ir.walk(m['body']):
+                    if y.get('k') in ('icast', 'cast') and y.get('ck') == 'IntegralCast' and (y.get('from') or '').startswith('unsigned') and \
+                            not (y.get('to') or '').replace('const ', '').startswith('unsigned') and (y.get('to') or '').replace('const ', '') in ('long', 'long long', 'int', 'std::ptrdiff_t', 'ptrdiff_t'):
+                        inner = [z for z in ir.walk(y.get('e')) if z.get('k') == 'mem' and z.get('n') in (roles.pos, roles.limit)]
+                        if inner:
+                            bad_casts.append((m['n'], y.get('loc', {}).get('l') or m['pat']['l'], y.get('to')))
+            chk.decide(not bad_casts, R('G'), '%s:%d unsigned' % (r['file'], r['loc']['l']),
+                       '%s: %s' % (methods[0]['rect'], 'position / limit arithmetic is converted to the signed type %s in %s (line %s)' % (
+                           bad_casts[0][2], bad_casts[0][0], bad_casts[0][1]) if bad_casts else 'position / limit arithmetic stays unsigned'), function=rec)
         for m in methods:
             if m.get('ctor') or m.get('dtor') or m['n'].startswith('operator') or m['n'] not in DELEGATE_OF:
                 continue
